@@ -105,6 +105,7 @@ static std::vector<ShimOutcome> g_cv; static std::vector<int> g_reinit; static s
 void shim_set_script(const ShimOutcome *cv, int ncv, const int *reinit, int nreinit) {
     g_cv.assign(cv, cv + ncv); g_reinit.assign(reinit, reinit + nreinit); g_icv = 0; g_ire = 0;
 }
+int shim_cv_calls(void) { return (int)g_icv; }
 void *CVodeCreate(int, SUNContext) { ShimCV *m = new ShimCV; m->t = 0; m->y = NULL; m->jac = NULL; m->A = NULL; m->ls = NULL; m->udata = NULL;
     shim_trace("create\n"); return m; }
 int CVodeSetErrFile(void *, FILE *) { return 0; }
